@@ -16,6 +16,7 @@ def register(db):
     register_port_type_message(db)
     register_lookup_and_port(db)
     register_lazy_namespace(db)
+    register_inner_class(db)
     P = ["C17"]
     assume_method(db, "Transport", "post", returns="u:Bytes", pure=True, raises=["ConnectionError"] if False else [])
     assume_method(db, "XmlParserObj", "from_bytes", returns="u:Any", pure=True, raises=["ParserError"])
@@ -484,4 +485,36 @@ def register_lazy_namespace(db):
                  ("other-fields-untouched", "implies(old(attr.namespace) != '##lazy', attr.namespace == old(attr.namespace))"),
                  ("never-left-lazy", "attr.namespace != '##lazy' or source.namespace == '##lazy'")],
         raises={}, modifies=["attr.namespace"], properties=["C17"],
+    ))
+
+
+def register_inner_class(db):
+    """DefinitionsMapper.build_inner_class (Header / Body / Fault / detail of an envelope): a new inner class is created
+    once per name, registered on the envelope class together with a forward field of that name - and the field carries
+    exactly the namespace the caller asked for: None (inherit the envelope's), the SOAP envelope namespace, or the empty
+    string (unqualified, as SOAP 1.1 prescribes for the fault detail)."""
+    DM = "xsdata.codegen.mappers.definitions:DefinitionsMapper"
+    MODELS = "xsdata.codegen.models"
+    db.inline.add(f"{MODELS}:Class.target_namespace")
+
+    def the_class(mk, base):
+        from pyvc.values import ClassRef
+        return ClassRef("xsdata.codegen.mappers.definitions", "DefinitionsMapper")
+
+    def envelope(mk, base):
+        o = mk.obj(f"{MODELS}:Class", {"qname": "str", "location": "str", "ns_map": "opaque:PyDict", "attrs": "opaque:PyList"})
+        mk.st.deref(o).fields["inner"] = mk.plist([])
+        return o
+
+    BA = "DefinitionsMapper.build_attr"
+    db.add(Contract(
+        f"{DM}.build_inner_class", variant="first-of-its-name",
+        params={"cls": the_class, "target": envelope, "name": "str", "namespace": "str|None"},
+        requires=["len(target.qname) > 0", "len(name) > 0"],
+        ensures=[("the-new-class-is-registered-on-the-envelope", "len(target.inner) == 1 and target.inner[0] is result and result.parent is target"),
+                 ("a-forward-field-of-that-name-is-added-with-exactly-the-requested-namespace",
+                  f"called('{BA}') == 1 and call_arg('{BA}', 1) == name and call_arg('{BA}', 2) == result.qname and call_arg('{BA}', 4) == True and "
+                  f"call_arg('{BA}', 5) == namespace and called('PyList.append') == 1 and call_arg('PyList.append', 0) is call_result('{BA}')"),
+                 ("the-field-is-not-touched-after-it-was-built", "called('setattr') == 0")],
+        raises={"ValueError": True}, modifies=["target.inner"], properties=["C17"],
     ))
